@@ -249,7 +249,7 @@ var c04SkipKnown = true
 // after the final recovery one more statement is acknowledged and the process
 // crashes again between statements (fault sequence): the torn flush must not
 // poison later durability
-var c04Suffix = alphaOpt{Tables: []string{"t1", "t2"}, Inserts: []int{1}, Updates: true, Deletes: true}
+var c04Suffix = alphaOpt{Tables: []string{"t1", "t2", "t3"}, Inserts: []int{1}, Updates: true, Deletes: true}
 
 func runC04(env *lib.Env, rep *lib.Report) {
 	d := 1
@@ -572,6 +572,17 @@ func (w *world) tearAndRecoverFinal(c *lib.Ctx, base image, tbl string, segs []f
 	}
 	ok := fw.checkAllExcept("after torn flush + recovery", inFlight)
 	c.Observe(fw.dumpKey())
+	if ok && tc.complete && inFlight != "" && fw.tableComplete(inFlight) {
+		// the CREATE TABLE that was in flight is there in full: from here on it is a table like the others,
+		// and what is acknowledged on it must last
+		c.Logf("table %s of the interrupted CREATE TABLE exists completely: adopted", inFlight)
+		c.Tag("in-flight-table-adopted")
+		mkCreate(inFlight, worldSchemas[inFlight]).apply(fw.model, -1)
+		inFlight = ""
+		if !fw.checkAll("after adopting the table of the interrupted CREATE TABLE") {
+			return false
+		}
+	}
 	if !ok || !tc.complete || inFlight != "" {
 		return ok
 	}
@@ -604,4 +615,27 @@ func (w *world) writeImage(img image) {
 		mkdirAll(filepath.Dir(fp))
 		writeFile(fp, b)
 	}
+}
+
+// tableComplete: does the catalog list exactly the declared columns of the table, and can it be read (empty)?
+func (w *world) tableComplete(name string) bool {
+	rows, _, err := w.query("SELECT table_name, field_name, field_type FROM sys_schema")
+	if err != nil {
+		return false
+	}
+	typeNo := map[string]int{"int": storage.TypeInt, "varchar": storage.TypeVarchar, "boolean": storage.TypeBoolean, "bigint": storage.TypeBigInt}
+	var got, want []string
+	for _, r := range rows {
+		if fmt.Sprint(r.Vals[0]) == name {
+			got = append(got, fmt.Sprintf("%v:%v", r.Vals[1], r.Vals[2]))
+		}
+	}
+	for _, col := range worldSchemas[name] {
+		want = append(want, fmt.Sprintf("%s:%d", col.Name, typeNo[col.Type]))
+	}
+	if strings.Join(got, ",") != strings.Join(want, ",") {
+		return false
+	}
+	data, _, err := w.query("SELECT * FROM " + name)
+	return err == nil && len(data) == 0
 }
